@@ -108,6 +108,8 @@ type Origin struct {
 	Reqs  atomic.Int64 // non-ping requests received
 	Pings atomic.Int64
 	Conns atomic.Int64
+	// PingDelay of this origin (nanoseconds); 0 = the farm's
+	PingDelay atomic.Int64
 }
 
 // NewFarm starts n origins
@@ -207,7 +209,11 @@ func (o *Origin) handle(w http.ResponseWriter, r *http.Request) {
 	if r.Header.Get("User-Agent") == "upstream/go" {
 		o.Pings.Add(1)
 		fm.pings.Add(1)
-		if d := fm.PingDelay.Load(); d > 0 {
+		d := fm.PingDelay.Load()
+		if od := o.PingDelay.Load(); od > 0 {
+			d = od
+		}
+		if d > 0 {
 			time.Sleep(time.Duration(d))
 		}
 		w.WriteHeader(200)
